@@ -26,7 +26,7 @@ WATCHDOG = {"quick": 900, "thorough": 3300}
 REQUIRED = {"expansion>=2x2": 10, "nesting-depth-3": 20, "resonance-without-alternatives": 20, "resonance-with>=2-alternatives": 20, "resonance-with-3-alternatives": 5,
             "tag:[S]": 10, "tag:[P]": 10, "tag:[D]": 10, "tag:[ls]": 10, "tag:[spin;ls]": 10, "cartesian:absent": 10, "cartesian:0": 10, "cartesian:1": 10,
             "parameter-rows": 20, "constant-rows": 20, "crlf": 5, "comments": 20, "eventtype-not-first": 5, "amplitudes>=8": 5, "unmemoised-read": 1, "flag-as-float-or-signed-literal": 10, "constant-name-repeated": 5, "ignored-line-kinds": 5,
-            "shipped-model-or-test-text": 1}
+            "shipped-model-or-test-text": 1, "read-after-a-failed-cartesian-read": 10, "conjugate-event-type": 20}
 ASSUMPTIONS = ["PDG IDs of the 29 AmpGen-style names of the golden pool are fixed in vmon/ampgen.py", "amplitude fixedness (line.fix) is not compared with the input flags (DESIGN 5.8)",
                "the order of amplitudes inside the expansion of one written line is not compared (multiset); groups follow file order",
                "name lookups are memoised per (name, particle-table size) after their first real execution in the process"]
@@ -126,7 +126,7 @@ def _strip_tags(s):
     return re.sub(r"\[[^\]]*\]", "", s)
 
 
-def check(ctx, model, seed_style, workload="gen", memo=True):
+def check(ctx, model, seed_style, workload="gen", memo=True, poison=None):
     import random  # noqa: PLC0415
 
     text = A.render(model, random.Random(seed_style))
@@ -143,6 +143,14 @@ def check(ctx, model, seed_style, workload="gen", memo=True):
     if not memo:
         A.uninstall_memo()
         ctx.hit("unmemoised-read")
+    if (ctx.rng.random() < 0.15) if poison is None else poison:
+        # history: a read that fails half-way (cartesian option on, unknown resonance further down) comes first in this interpreter
+        ctx.hit("read-after-a-failed-cartesian-read")
+        wit["preceded_by_failed_read_of"] = A.POISON_TEXT
+        try:
+            read(A.POISON_TEXT)
+        except Exception:  # noqa: BLE001, S110   what it raises is not judged
+            pass
     try:
         ok, res = ctx.guard("read", wit, read, text)
     finally:
@@ -220,6 +228,9 @@ def run(ctx):
     n = ctx.pick(60, 400)
     for i in range(n):
         model = A.gen_model(ctx.rng)
+        if i % 5 == 4:
+            model = A.mirror_model(model)       # the conjugate process: Dbar0 -> K+ pi- ..., every name in its conjugate spelling
+            ctx.hit("conjugate-event-type")
         check(ctx, model, ctx.rng.randrange(10**9), memo=not (i == 3 and ctx.shard == 0))
         if len(ctx.violations) >= ctx.max_violations:
             return
@@ -235,6 +246,6 @@ def run(ctx):
 def replay(ctx, w):
     A.install_memo()
     if w["kind"] == "options":
-        check(ctx, A.model_from_json(w["model"]), w["style_seed"], "replay")
+        check(ctx, A.model_from_json(w["model"]), w["style_seed"], "replay", poison="preceded_by_failed_read_of" in w)
     else:
         corpus(ctx)
